@@ -2282,6 +2282,9 @@ impl Translator {
                                 }
                                 _ => unreachable!(),
                             }
+                        } else {
+                            // nothing is stored, but the right-hand side still runs: `u = println("x")`
+                            self.translate_expr(rvalue, offset_table, mono, st);
                         }
                     }
                     AssignOperator::PlusEq
